@@ -54,3 +54,16 @@ func vh_C13_b64_decrypt() {
 	_, _ = c.Decrypt(ct)
 	verifReach("end")
 }
+
+// the nonce and state hashing used by every login start and callback is safe to call from
+// concurrent requests
+// verif: unwind=6 strlen=8 race also=C03,C05,C20
+func vh_C03_hash_nonce_race() {
+	a, b := ndBytes("nonce-a"), ndBytes("nonce-b")
+	var ha, hb string
+	verifThread(1, func() { ha = HashNonce(a) })
+	verifThread(2, func() { hb = HashNonce(b) })
+	verifRaceFree("C03.hash-nonce.no-data-race")
+	verifAssert("C03.hash-nonce.deterministic", vImp(string(a) == string(b), ha == hb))
+	verifReach("end")
+}
